@@ -18,17 +18,20 @@ RULE = (
     "containers) x render configuration (the three named palettes or a generated palette, qualify_op_name F/T). Oracle: "
     "an independent tolerant parser of Digraph.source: one node statement per HUGR node whose label carries the "
     "display name and exactly the PORT cells in.i / out.i for i < num_in/out_ports; one cluster<idx> per node with "
-    "children, nested exactly as the hierarchy; edge statements == links() as a multiset with endpoints "
+    "children, nested exactly as the hierarchy; edge statements == the links reported by linked_ports of every out port, as a multiset with endpoints "
     "idx:out.offset -> idx:in.offset (order links at offset -1); value edges labelled str(type); the HUGR's observation "
     "is unchanged; a second configuration yields the same parsed structure (only colours and op-name prefixes differ). "
     "render-after-edits sub-check: the same over HUGRs produced by raw add/delete histories with index reuse (child "
     "order differs from index order), where rendering must in particular leave the child order alone. "
+    "store-dot sub-check: the file written by Hugr.store_dot equals render_dot's source and Graphviz itself (dot -Tplain) "
+    "accepts it and reads as many nodes and edges as the HUGR has nodes and links (names and metadata with <, >, & and "
+    "control characters included). "
     "Non-trivial = HUGR with a container and an order / static / control-flow edge (programs) / some parent whose "
     "children are not in index order (edits); distinct by canonical JSON."
 )
 ASSUMPTIONS = [
     "generated names / metadata do not contain the node-statement terminator '> shape=plain]' (statement template used by the parser)",
-    "Graphviz's acceptance of the DOT text is not judged (the statement speaks about the source)",
+    "Graphviz's acceptance of the DOT text is judged by the store-dot sub-check only (50 programs per quick run); its warnings about the port names of order edges are not judged",
 ]
 
 NODE_START = re.compile(r"^\s*(\d+) \[label=<\s*$")
